@@ -1,2 +1,57 @@
-From Coq Require Import ZArith List.
-From BT Require Import Model.RTree Model.TreeRun.
+(* C01 -- containers behave as a sorted map / sorted set.
+   Model: Model/RTree.v (the B+tree with the code's split / unlink policies),
+   Model/TreeRun.v (the public API as a step function, and the reference
+   sorted association list Spec).  Proofs: Proofs/TreeProofs.v. *)
+From Coq Require Import ZArith List Bool Sorted.
+From BT Require Import Model.RTree Model.TreeSpec Model.TreeRun Proofs.TreeProofs.
+Import ListNotations.
+Open Scope Z_scope.
+
+(* every history of public calls, on every legal node-size setting: each
+   return value / KeyError and the final ordered contents equal those of the
+   reference sorted map driven by the same calls *)
+Theorem C01_refines : forall (vsame iand_rebuilds : bool) (ml mi : nat) (calls : list call),
+  (1 <= ml)%nat -> (2 <= mi)%nat ->
+  let '(s, outs) := run vsame iand_rebuilds ml mi init calls in
+  let '(m, outs') := Spec.run [] calls in
+  outs = outs' /\ contents Z (t_tree s) = m.
+Proof. exact TreeProofs.run_refines. Qed.
+Print Assumptions C01_refines.
+
+(* keys stay unique and ascending in every reachable state *)
+Theorem C01_keys_sorted : forall (vsame iand_rebuilds : bool) (ml mi : nat) (calls : list call),
+  (1 <= ml)%nat -> (2 <= mi)%nat ->
+  StronglySorted Z.lt (map fst (contents Z (t_tree (fst (run vsame iand_rebuilds ml mi init calls))))).
+Proof. exact TreeProofs.run_sorted. Qed.
+Print Assumptions C01_keys_sorted.
+
+(* a call that raises KeyError leaves the contents unchanged *)
+Theorem C01_raise_preserves : forall (vsame iand_rebuilds : bool) (ml mi : nat) (calls : list call) (c : call),
+  (1 <= ml)%nat -> (2 <= mi)%nat ->
+  let s := fst (run vsame iand_rebuilds ml mi init calls) in
+  snd (step vsame iand_rebuilds ml mi s c) = OKeyError ->
+  contents Z (t_tree (fst (step vsame iand_rebuilds ml mi s c))) = contents Z (t_tree s).
+Proof. exact TreeProofs.keyerror_preserves. Qed.
+Print Assumptions C01_raise_preserves.
+
+(* a Bucket / Set is one leaf: its set and delete are the reference insert / remove *)
+Theorem C01_leaf : forall (vsame : bool) (l : list (Z * Z)) (k v : Z) (ifunset : bool),
+  StronglySorted Z.lt (map fst l) ->
+  (let '(l', st, rv) := lset Z Z.eqb vsame l k v ifunset in
+   l' = (if ifunset && Spec.mem l k then l else Spec.insert l k v) /\
+   (st = St1 <-> Spec.mem l k = false) /\
+   rv = (if ifunset then match Spec.lookup l k with Some x => x | None => v end else v)) /\
+  (match ldel Z l k with
+   | Some (l', x) => Spec.lookup l k = Some x /\ l' = Spec.remove l k
+   | None => Spec.lookup l k = None
+   end).
+Proof. exact TreeProofs.leaf_refines. Qed.
+Print Assumptions C01_leaf.
+
+Example C01_example :
+  let '(s, outs) := run false false 2 2 init
+      [CSet 5 50; CSet 1 10; CSet 9 90; CSet 3 30; CSet 7 70; CDel 1; CPop 4; CItems; CPopitem] in
+  outs = [ONone; ONone; ONone; ONone; ONone; ONone; OKeyError;
+          OItems [KV 3 30; KV 5 50; KV 7 70; KV 9 90]; OKV 3 30] /\
+  contents Z (t_tree s) = [(5, 50); (7, 70); (9, 90)] /\ depth Z (t_tree s) = 1%nat.
+Proof. vm_compute. repeat split. Qed.
